@@ -624,6 +624,18 @@ class StateWorld(Run):
             obs = sut.tableau_rows(ost)[int(ost.r):self.n]
             if not obs:
                 via = "list"
+        if via == "list" and "view_operand" in self.cfg["faults"] and rng.random() < 0.06:
+            # the observables are a slice of the state's OWN tableau (stabilizer block or
+            # destabilizer block): rows the kernel rewrites while it reads them as observables
+            n = self.n
+            blk = rng.choice([0, n])
+            lo = rng.randrange(0, n)
+            hi = rng.randrange(lo + 1, n + 1)
+            op["rows"] = [blk + lo, blk + hi]
+            via = "ownrows"
+            obs = sut.tableau_rows(self.slots[name])[blk + lo:blk + hi]
+            if not all(rm.hermitian(p) for p in obs):
+                via = "list"
         if via == "list":
             obs = self.gen_obs(rng, name)
             if rng.random() < 0.01:
@@ -727,8 +739,16 @@ class StateWorld(Run):
             l = tuple(3 if i == q else 0 for i in range(self.n))
         else:
             l = rm.rand_letters(rng, self.n)
-        return {"op": "postselect", "slot": name, "P": rm.pstr((l, rng.choice((0, 2)))),
-                "b": rng.randrange(2)}
+        op = {"op": "postselect", "slot": name, "P": rm.pstr((l, rng.choice((0, 2)))),
+              "b": rng.randrange(2)}
+        if "view_operand" in self.cfg["faults"] and m.rank == 0 and rng.random() < 0.08:
+            # the Pauli is a row of the state's OWN tableau, handed over as a view (state[j])
+            j = rng.randrange(2 * self.n)
+            row = sut.tableau_rows(self.slots[name])[j]
+            if rm.hermitian(row):
+                op["P"] = rm.pstr(row)
+                op["ownrow"] = j
+        return op
 
     def _p_mlayer(self, rng):
         name = self._pick(rng)
@@ -1128,7 +1148,16 @@ class StateWorld(Run):
         name, st = self._state(op)
         n = self.n
         via = op["via"]
-        if via == "state":
+        if via == "ownrows":
+            lo, hi = op["rows"]
+            if not (0 <= lo < hi <= 2 * n) or (lo < n < hi):
+                raise Skip()
+            obs = sut.tableau_rows(st)[lo:hi]
+            if not all(rm.hermitian(p) for p in obs):
+                raise Skip()
+            obj = st[lo:hi]
+            self.probes["observables_are_own_tableau_rows"] += 1
+        elif via == "state":
             if op["other"] not in self.slots:
                 raise Skip()
             ost = self.slots[op["other"]]
@@ -1275,8 +1304,16 @@ class StateWorld(Run):
             # no exception on a mixed state: the property only speaks about pure states
             self._resync(name, "postselect_mixed")
             return "accepted_on_mixed"
+        arg = sut.mk_pauli(P)
+        if op.get("ownrow") is not None:
+            j = op["ownrow"]
+            if not 0 <= j < 2 * self.n or sut.tableau_rows(st)[j] != P:
+                raise Skip()
+            arg = st[j]
+            self.stats["view_operand"] += 1
+            self.probes["postselect_on_own_tableau_row"] += 1
         try:
-            prob = st.postselect(sut.mk_pauli(P), b)
+            prob = st.postselect(arg, b)
         except Exception as e:
             if owned:
                 raise Violation("c14.exception", {"exc": repr(e), "op": "postselect"})
